@@ -2250,7 +2250,8 @@ impl<T, A: MutBumpAllocatorTyped> MutBumpVec<T, A> {
 
             if this.capacity() == 0 {
                 // We didn't touch the allocator, so no need to do anything.
-                debug_assert_eq!(this.as_non_null(), NonNull::<T>::dangling());
+                // (The pointer is the dangling pointer of the element type the vector was created
+                // with, which `map_in_place` may have changed to a type with a smaller alignment.)
                 return NonNull::slice_from_raw_parts(NonNull::<T>::dangling(), 0);
             }
 
